@@ -318,6 +318,75 @@ pub fn static_reads(p: &Program) -> Vec<String> {
     out
 }
 
+/// The identifier occurrences (by address inside `p`) that stand where a variable of that name
+/// is statically in scope: these are variables and never mean a device output, whether or not
+/// the variable has been assigned on the executed path.
+pub fn lexical_names(p: &Program) -> std::collections::HashSet<usize> {
+    use std::collections::HashSet;
+    fn expr(e: &Expr, scope: &Vec<Vec<String>>, out: &mut HashSet<usize>) {
+        match e {
+            Expr::Lit(..) => {}
+            Expr::Name(n) => {
+                if scope.iter().any(|f| f.contains(n)) {
+                    out.insert(e as *const Expr as usize);
+                }
+            }
+            Expr::Un(_, a) | Expr::Random(a) | Expr::Group(a) | Expr::Raw(_, a) => expr(a, scope, out),
+            Expr::Bin(_, a, b) | Expr::SignExt(a, b) => {
+                expr(a, scope, out);
+                expr(b, scope, out);
+            }
+            Expr::Ite(c, a, b) => {
+                expr(c, scope, out);
+                expr(a, scope, out);
+                expr(b, scope, out);
+            }
+        }
+    }
+    fn entries(es: &[Entry], scope: &Vec<Vec<String>>, out: &mut HashSet<usize>) {
+        for e in es {
+            if let Entry::Paren(x) | Entry::Bits(_, x) = e {
+                expr(x, scope, out);
+            }
+        }
+    }
+    fn walk(stmts: &[Stmt], scope: &mut Vec<Vec<String>>, out: &mut HashSet<usize>) {
+        for s in stmts {
+            match s {
+                Stmt::Row(es) => entries(es, scope, out),
+                Stmt::Let(n, e) => {
+                    expr(e, scope, out);
+                    let f = scope.last_mut().unwrap();
+                    if !f.contains(n) {
+                        f.push(n.clone());
+                    }
+                }
+                Stmt::Declare(..) | Stmt::ResetRandom => {}
+                Stmt::Loop(v, e, body) => {
+                    expr(e, scope, out);
+                    scope.push(vec![v.clone()]);
+                    walk(body, scope, out);
+                    scope.pop();
+                }
+                Stmt::Repeat(e, es) => {
+                    expr(e, scope, out);
+                    scope.push(vec!["n".to_string()]);
+                    entries(es, scope, out);
+                    scope.pop();
+                }
+                Stmt::While(e, body) => {
+                    expr(e, scope, out);
+                    walk(body, scope, out);
+                }
+            }
+        }
+    }
+    let mut out = HashSet::new();
+    let mut scope = vec![vec![]];
+    walk(&p.body, &mut scope, &mut out);
+    out
+}
+
 /// Header columns that hold `C` in some row (anywhere in the program)
 pub fn c_columns(p: &Program) -> BTreeSet<usize> {
     fn walk(stmts: &[Stmt], out: &mut BTreeSet<usize>) {
@@ -439,6 +508,7 @@ struct Interp<'a> {
     /// with the next statement (what a caller sees who carries on after such an item)
     cont_rows: bool,
     bound_evals: Vec<(usize, i64)>,
+    lexical: std::collections::HashSet<usize>,
 }
 
 fn number_rows(stmts: &[Stmt], next: &mut usize, map: &mut HashMap<*const Stmt, usize>) {
@@ -487,6 +557,13 @@ impl<'a> Interp<'a> {
     fn eval(&mut self, e: &Expr, vars: bool) -> Result<i64, Option<RefErr>> {
         Ok(match e {
             Expr::Lit(n, _) => *n,
+            Expr::Name(n) if vars && self.lexical.contains(&(e as *const Expr as usize)) => {
+                // a variable by its place in the text: never the device output of that name
+                match self.frames.iter().rev().find_map(|f| f.iter().rev().find(|(k, _)| k == n)) {
+                    Some((_, v)) => *v,
+                    None => return Err(Some(RefErr::Unassigned(n.clone()))),
+                }
+            }
             Expr::Name(n) => self.lookup(n, vars).map_err(Some)?,
             Expr::Un(op, a) => unop(*op, self.eval(a, vars)?),
             Expr::Bin(op, a, b) => {
@@ -931,6 +1008,7 @@ pub fn run_opts2(p: &Program, signals: &[Sig], env: &mut dyn Env, fuel: Fuel, co
         depth: 0,
         cont,
         cont_rows,
+        lexical: lexical_names(p),
         bound_evals: vec![],
     };
     let r = it.exec(&p.body);
